@@ -45,7 +45,7 @@ CLAIMED = {
           "C04_one_reply_per_command / C04_error_reply_and_notice (server model, plain SMTP: every command other than AUTH/STARTTLS is answered with exactly one write — an accepted DATA with two — "
           "whatever the arguments, the state, the backend (refusals, errors, panics) and the way a chunk arrives; an unrecognised command gets one reply plus the closing notice exactly when the connection is given up); C04_lmtp_one_reply_per_recipient (LMTP: one reply per command, one per accepted recipient for an accepted LAST chunk — delivered or failed — and after the 354 of DATA).",
           "DESIGN.md 7 C04", "Lean 4 proof of the L3 interleaving model and of the renderer against the recogniser + trace monitors + differential correspondence (conv, sched probes)",
-          "the reply count of an AUTH exchange (334s and the final reply) is tied by the monitors and the correspondence, not by a theorem (STARTTLS: C04_starttls_replies); echoed client octets in reply text are a design-phase finding not yet judged"),
+          "AUTH and STARTTLS have their own count theorems (C04_auth_replies: one reply per mechanism step plus one for a cancel/garbage; C04_starttls_replies); echoed client octets in reply text are a design-phase finding not yet judged"),
  "C05": C("Proved on the wire model (segments below bufio below the limiter): C05_refused_chunk_discarded (a refused BDAT with its n declared "
           "octets on a live connection: exactly those n octets are skipped - the next command line starts at octet n of the stream - and the line "
           "limit is back in force), C05_failed_chunk_skipped (copy as far as the delivery takes it, discard the rest: exactly n), "
